@@ -136,6 +136,16 @@ CLAIMED = {
         "std::vector arguments/results and std::string results by value have no plain C entry point (covered through Fortran in C01).",
         "DESIGN.md section 3 C02",
     ),
+    "C04": (
+        "exhaustive pairwise comparison of every bind(C) interface / derived type / constant of every generated module against the C declarations, through two compiler-derived views (gfortran -fc-prototypes, clang JSON AST) reduced to ABI classes",
+        "For the 50 corpus configurations and every library assembled from the atom table x {c, c++} x {F_CFI off, on}, each generated Fortran module is given to gfortran -fc-prototypes, "
+        "which prints the C prototype it assumes for every bind(C) interface body and the C struct for every bind(C) type; clang's JSON AST of the generated headers, the utility sources "
+        "and the wrapped library's header gives the declarations that exist. Name by name: the C function must exist, arity and order must agree, every parameter and the result must fall "
+        "in the same ABI class (family, size, by value / pointer, pointee; descriptor arguments under F_CFI), derived types must match their C struct field by field (by layout), and the "
+        "SH_TYPE_* tables must have equal values (1.8k interfaces quick, 4k thorough).",
+        "Signedness and typedef spelling are ignored; type(C_PTR)/void* matches any object pointer. A module gfortran rejects is reported by C05, not here.",
+        "DESIGN.md section 3 C04",
+    ),
 }
 
 PENDING_REASON = "check not built yet in this round (planned, see DESIGN.md section 8); not claimed until it runs"
